@@ -87,15 +87,27 @@ def r1_one_name(ctx):
     # filter in the loader and name in delete use the same parse
     ls = corpus.func('repository', 'Repository._load_snapshots')
     ok = False
-    for f in ls.nested.values():
+    for f in ls.all_nested():
         for c in calls_in(f.node):
-            if isinstance(c.func, ast.Attribute) and c.func.attr == 'search' and c.args and isinstance(c.args[0], ast.Name):
-                nm = c.args[0].id
-                for a in walk_local(f.node):
-                    if isinstance(a, ast.Assign) and isinstance(a.value, ast.Call) and (dotted(a.value.func) or '') == 'self.parse_snapshot_location':
-                        t = a.targets[0]
-                        if isinstance(t, ast.Tuple) and t.elts and isinstance(t.elts[0], ast.Name) and t.elts[0].id == nm:
-                            ok = True
+            if isinstance(c.func, ast.Attribute) and c.func.attr == 'search' and c.args:
+                arg = c.args[0]
+                # (a) `name, tag = self.parse_snapshot_location(path)` ; search(name)
+                if isinstance(arg, ast.Name):
+                    for a in walk_local(f.node):
+                        if isinstance(a, ast.Assign) and isinstance(a.value, ast.Call) and (dotted(a.value.func) or '') == 'self.parse_snapshot_location':
+                            t = a.targets[0]
+                            if isinstance(t, ast.Tuple) and t.elts and isinstance(t.elts[0], ast.Name) and t.elts[0].id == arg.id:
+                                ok = True
+                # (b) search(self.parse_snapshot_location(path).name), possibly through locals
+                av = deref(f.node, arg)
+                if isinstance(av, ast.Attribute) and av.attr == 'name':
+                    base = deref(f.node, av.value)
+                    if isinstance(base, ast.Call) and (dotted(base.func) or '') == 'self.parse_snapshot_location':
+                        ok = True
+                if isinstance(av, ast.Subscript) and isinstance(av.slice, ast.Constant) and av.slice.value == 0:
+                    base = deref(f.node, av.value)
+                    if isinstance(base, ast.Call) and (dotted(base.func) or '') == 'self.parse_snapshot_location':
+                        ok = True
     ctx.check(ok, 'C15.R1', f'{func_label(ls)}|filter-on-parsed-name', loc(ls, ls.node), 'the snapshot filter is applied to parse_snapshot_location(path).name', 'the snapshot filter is not applied to the parsed snapshot name')
     roles = DeleteRoles(corpus)
     fn = roles.fn
